@@ -26,6 +26,12 @@ wt = f"/tmp/seedv/{a.id}"
 subprocess.run(["git", "-C", "/repo", "worktree", "remove", "--force", wt], stderr=subprocess.DEVNULL)
 os.makedirs("/tmp/seedv", exist_ok=True)
 subprocess.check_call(["git", "-C", "/repo", "worktree", "add", "-q", "--detach", wt, "HEAD"])
+prev = {}
+if os.path.exists(os.path.join(sd, "meta.json")):
+    try:
+        prev = json.load(open(os.path.join(sd, "meta.json")))
+    except Exception:
+        prev = {}
 meta = {"id": a.id, "breaks_property": a.id.split("_")[0], "repo_head": subprocess.check_output(["git", "-C", "/repo", "rev-parse", "--short", "HEAD"], text=True).strip()}
 env = dict(os.environ, PYTHONPATH=wt, PYTHONDONTWRITEBYTECODE="1")
 env.pop("MLODA_VERIF", None)
@@ -61,8 +67,13 @@ try:
         meta["suite_missing"] = missing[:10]
         meta["suite_passes"] = not missing
         print("suite with patch: missing", len(missing), missing[:3])
+    if a.skip_suite and "suite_passes" in prev:
+        meta["suite_passes"], meta["suite_missing"] = prev["suite_passes"], prev.get("suite_missing", [])
+        meta["suite_checked_at_repo_head"] = prev.get("suite_checked_at_repo_head", prev.get("repo_head"))
+    elif not a.skip_suite:
+        meta["suite_checked_at_repo_head"] = meta["repo_head"]
     checks = (a.checks or meta["breaks_property"]).split(",")
-    meta["checks"] = {}
+    meta["checks"] = dict(prev.get("checks", {})) if a.skip_suite else {}
     for c in checks:
         t0 = time.time()
         p = subprocess.run(["/verif/check", c, "--tier", a.tier], env=dict(os.environ, VERIF_REPO=wt, VERIF_EVIDENCE_DIR="/verif/_build/seed_evidence", VERIF_REPLAY_DIR="/verif/_build/seed_replays"), stdout=subprocess.PIPE, stderr=subprocess.STDOUT, text=True, timeout=7200)
